@@ -38,6 +38,10 @@ type Env struct {
 	// curCtr: the allocation counter at the current program point (for allocated())
 	visited func(k Val) string
 	curCtr  string
+	// critMem: the memory at the start of the current critical section (monitors), for atcrit()
+	critMem MemFn
+	// tok: the calling thread's contribution to a monitor counter at the current point, for mine()
+	tok func(name string) string
 }
 
 type unreachedErr struct{ name string }
@@ -785,6 +789,22 @@ func (env *Env) elabCall(x *ECall) Val {
 		a := *env
 		a.mem = env.old.mem
 		return a.elab(x.Args[0])
+	case name == "mine":
+		// mine(counter): the calling thread's own contribution to a monitor counter
+		id, ok := x.Args[0].(*EIdent)
+		if !ok || env.tok == nil {
+			fail("mine() needs a counter name and a program point")
+		}
+		return Val{T: types.Typ[types.Uint64], S: env.tok(id.Name)}
+	case name == "atcrit":
+		// atcrit(e): e evaluated in the memory at the start of the current critical section (after the last
+		// Lock / Wait of a monitored mutex), with the current values of local variables
+		if env.critMem == nil {
+			fail("atcrit() not available here")
+		}
+		a := *env
+		a.mem = env.critMem
+		return a.elab(x.Args[0])
 	case name == "old" || strings.HasPrefix(name, "old@"):
 		var oe *Env
 		if name == "old" {
@@ -819,7 +839,8 @@ func (env *Env) elabCall(x *ECall) Val {
 		case *types.Array:
 			return Val{T: intT, S: c.idxLit(u.Len())}
 		case *types.Map:
-			return Val{T: intT, S: fmt.Sprintf("(%s %s)", env.mapLenFn(u), env.mapState(v, u))}
+			// (same term as the encoder's builtin len: a nil map has length 0)
+			return Val{T: intT, S: fmt.Sprintf("(ite (= %s map_nil) %s (%s %s))", v.S, c.idxLit(0), env.mapLenFn(u), env.mapState(v, u))}
 		}
 		fail("len of %v", v.T)
 	case name == "ite":
